@@ -16,7 +16,7 @@ From Coq Require Import ZifyBool Lia.
 Open Scope Z_scope.
 
 Definition in_window (lo : Z) (cfg : config) : Prop :=
-  r_tail (g_ring cfg) + 2 * r_cap (g_ring cfg) <= lo + two30.
+  r_tail (g_ring cfg) + 2 * r_cap (g_ring cfg) <= two62.
 
 Lemma step_inv lo m cfg tid cfg' e :
   Inv lo cfg -> step m cfg tid = Some (cfg', e) -> in_window lo cfg' -> Inv lo cfg'.
@@ -52,9 +52,9 @@ Proof. intros (_ & _ & Gl & Gs & _ & Gk & Go & Gq). split; [assumption |]. unfol
 
 Lemma inv_start R limits progs :
   wf R -> Forall (Forall wreq_ok) progs ->
-  0 <= r_hc R <= two61 -> r_tail R + 2 * r_cap R <= r_hc R + two30 ->
+  r_tail R + 2 * r_cap R <= two62 ->
   Inv (r_hc R) (start R limits progs).
-Proof. intros W Hok Hlo Hwin. pose proof (wf_cap _ W) as Hc. pose proof (wf_hc _ W) as Hhc.
+Proof. intros W Hok Hwin. pose proof (wf_cap _ W) as Hc. pose proof (wf_hc _ W) as Hhc.
   assert (Hh : head' R (cstart limits) = r_head R) by (unfold head', cstart; destruct limits; reflexivity).
   unfold start. constructor; cbn [g_ring g_cons g_prods]; rewrite ?Hh; auto; try lia.
   - apply (wf_h8 _ W).
@@ -126,7 +126,7 @@ Fixpoint replay_ok (lo : Z) (m : mode) (c : config) (sched : list nat) : option 
   | t :: r =>
       match step m c t with
       | Some (c', _) =>
-          if r_tail (g_ring c') + 2 * r_cap (g_ring c') <=? lo + two30 then replay_ok lo m c' r else None
+          if r_tail (g_ring c') + 2 * r_cap (g_ring c') <=? two62 then replay_ok lo m c' r else None
       | None => None
       end
   end.
@@ -135,5 +135,5 @@ Lemma replay_reach lo m c0 : forall sched c c', replay_ok lo m c sched = Some c'
 Proof. induction sched as [| t r IH]; intros c c' H Hr; cbn [replay_ok] in H.
   - inversion H; subst. assumption.
   - destruct (step m c t) as [[c1 e] |] eqn:E; [| discriminate].
-    destruct (r_tail (g_ring c1) + 2 * r_cap (g_ring c1) <=? lo + two30) eqn:W; [| discriminate].
+    destruct (r_tail (g_ring c1) + 2 * r_cap (g_ring c1) <=? two62) eqn:W; [| discriminate].
     apply (IH c1 c' H). eapply reach_step; [exact Hr | exact E | unfold in_window; lia]. Qed.
